@@ -100,7 +100,9 @@ Fixpoint row (n : nat) (leaves : list leaf) (edges : list (nat * nat)) (st : lis
                                             then follow_of edges p else []) st) in
       match tgt with
       | [] => let '(rw, states') := row n leaves edges st r states in (None :: rw, states')
-      | _ => match index_of tgt states 0 with
+      | _ => (* the initial state is not entered into stateTable (the put is commented out in buildDFA), so a
+                target equal to the initial set becomes a new state *)
+             match index_of tgt (tl states) 1 with
              | Some i => let '(rw, states') := row n leaves edges st r states in (Some i :: rw, states')
              | None => let i := length states in
                        let '(rw, states') := row n leaves edges st r (states ++ [tgt]) in (Some i :: rw, states')
